@@ -264,13 +264,7 @@ func (w *World) checkC11(pre, post views, e Event, pkt *Packet) {
 				}
 				continue
 			}
-			// newly learned
-			via, srcKnewLeft := w.learnSource(pre, e, pkt, i, id)
-			if srcKnewLeft && !v.Left {
-				w.violate("C11", "relearn-left", "relearned-left-node-as-live:"+via, "%s learned %s as a live node via %s from a peer that knew it had left", nd.ID, id, via)
-			} else if (w.crashed[x] || w.leftCalled[x]) && w.everExpired[i][x] {
-				w.violate("C11", "stay-forgotten", "relearn-after-expiry:"+via, "%s had expired %s (which is gone for good) and re-learned it via %s from a peer still listing it", nd.ID, id, via)
-			}
+			// newly learned: judged below from the message that taught it
 			if v.Left && !w.leftCalled[x] {
 				w.violate("C11", "left-origin", "left-declared-by-other", "%s marks %s left although it never left", nd.ID, id)
 			}
@@ -286,6 +280,39 @@ func (w *World) checkC11(pre, post views, e Event, pkt *Packet) {
 			if !v.Left && !v.Unreachable && !v.Expiry.IsZero() {
 				w.violate("C11", "expiry", "live-node-expiring", "%s: %s is live but has an expiry", nd.ID, id)
 			}
+		}
+	}
+	if w.sc.Routing {
+		// a node flagged left or unreachable is excluded from routing
+		for o, nd := range w.nodes {
+			for _, ep := range w.endpointAlphabet() {
+				for rep := 0; rep < 3; rep++ {
+					if n, ok := nd.CS.LookupEndpoint(ep); ok {
+						if v := post[o][n.ID]; v == nil || v.Left || v.Unreachable {
+							w.violate("C11", "routing", "flagged-node-routable", "%s routes %s to %s although it is left/unreachable/forgotten", nd.ID, ep, n.ID)
+						}
+					}
+				}
+			}
+		}
+	}
+	for _, l := range w.learned {
+		x, ok := w.byID[l.id]
+		if !ok {
+			continue
+		}
+		v := post[l.o][l.id]
+		if v == nil {
+			continue // learned and forgotten within the same event
+		}
+		who := w.nodes[l.o].ID
+		if l.src == x {
+			continue // heard from the node itself: it really is there
+		}
+		if l.srcKnewLeft && !v.Left {
+			w.violate("C11", "relearn-left", "relearned-left-node-as-live:"+l.via, "%s learned %s as a live node via %s from %s, which knew it had left", who, l.id, l.via, w.nodes[l.src].ID)
+		} else if (w.crashed[x] || w.leftCalled[x]) && w.everExpired[l.o][x] {
+			w.violate("C11", "stay-forgotten", "relearn-after-expiry:"+l.via, "%s had expired %s (gone for good) and re-learned it via %s from %s", who, l.id, l.via, w.nodes[l.src].ID)
 		}
 	}
 	if e.Kind == "sweep" {
@@ -331,53 +358,6 @@ func (w *World) checkC11(pre, post views, e Event, pkt *Packet) {
 	}
 }
 
-// learnSource says through what kind of message node o first learned id in
-// this transition, and whether the peer that produced the message knew the
-// node had left.
-func (w *World) learnSource(pre views, e Event, pkt *Packet, o int, id string) (string, bool) {
-	switch e.Kind {
-	case "deliver", "dup":
-		if pkt == nil {
-			return "unknown", false
-		}
-		if pkt.Digest {
-			_, d, _ := gossip.VDecodeDigest(pkt.Data)
-			for _, de := range d {
-				if de.ID == id {
-					return "digest", de.Left
-				}
-			}
-			return "digest", false
-		}
-		_, d, _ := gossip.VDecodeDelta(pkt.Data)
-		for _, de := range d {
-			if de.ID == id {
-				for _, en := range de.Entries {
-					if en.Key == gossip.VLeftKey {
-						return "delta", true
-					}
-				}
-			}
-		}
-		return "delta", false
-	case "join":
-		src := e.B
-		if o == e.B {
-			src = e.A
-		}
-		if src == w.byID[id] {
-			return "join", w.leftCalled[src]
-		}
-		if p := pre[src][id]; p != nil {
-			return "join", p.Left
-		}
-		return "join", false
-	case "leave":
-		return "leave", w.byID[id] == e.A
-	}
-	return e.Kind, false
-}
-
 // ---------------------------------------------------------------------------
 // C04: the routing table mirrors what each node advertises
 
@@ -396,6 +376,15 @@ func (w *World) checkC04(post views) {
 			// caught up with everything the owner published
 			want := w.nodes[x].CS.LocalNode()
 			got, ok := nd.CS.Node(id)
+			if w.everExpired[o][x] && w.hasHole(v, owner) {
+				// finding F3: the gossip view itself skipped entries because a
+				// delta computed against a digest sent before the node was
+				// forgotten was applied afterwards
+				if !ok || !sameEndpoints(got.Endpoints, want.Endpoints) {
+					w.violate("C04", "mirror", "stale-delta-after-expiry-leaves-hole", "%s forgot %s, then applied a delta computed for its old view: it reports version %d but holds %s, owner has %s", nd.ID, id, v.Version, descNode(v), descNode(owner))
+				}
+				continue
+			}
 			if !ok {
 				w.violate("C04", "mirror", "caught-up-node-missing", "%s has caught up with %s (version %d) but its routing table does not list it", nd.ID, id, v.Version)
 				continue
@@ -437,6 +426,20 @@ func (w *World) checkC04(post views) {
 			}
 		}
 	}
+}
+
+// hasHole: the view claims version v but lacks entries the owner holds at or
+// below v.
+func (w *World) hasHole(v, owner *gossip.NodeState) bool {
+	vm := entryMap(v)
+	for _, e := range owner.Entries {
+		if e.Version <= v.Version {
+			if got, ok := vm[e.Key]; !ok || got != e {
+				return true
+			}
+		}
+	}
+	return false
 }
 
 func sameEndpoints(a, b map[string]int) bool {
